@@ -39,7 +39,8 @@ def main():
     sh(["rsync", "-a", "--exclude", ".git", "--exclude", "replays", "--exclude", "seeded", "--exclude", "refactors", "--exclude", "design-spikes",
         "--exclude", ".work/gocache", V + "/", vc + "/"])
     gm = os.path.join(vc, "harness", "go.mod")
-    open(gm, "w").write(open(gm).read().replace("=> /repo", f"=> {wt}"))
+    txt = open(gm).read().replace("=> /repo", f"=> {wt}")
+    open(gm, "w").write(txt)
     env = dict(ENV, AVO_REPO=wt, VERIF_REPO_LOCKED="1", GOCACHE=os.path.join(V, ".work", "gocache"))
 
     def run(c):
